@@ -1,7 +1,7 @@
 #!/bin/bash
 # like eval_all_mutants.sh, but against a private copy of the library source (so that it can run beside other work, e.g. in a
 # `vp run` snapshot): every seeded change is applied to a scratch copy of /repo/src and the checks run with VERIF_PROV_SRC.
-# usage: [ONLY="id id"] tools/eval_all_private.sh [scratch-dir]        one line per change; the scratch copy is removed at the end
+# usage: [ONLY="id id"] [EVAL_SEED=n] tools/eval_all_private.sh [scratch-dir]        one line per change; the scratch copy is removed at the end
 cd "$(dirname "$0")/.."
 S=${1:-/tmp/evalrepo.$$}
 rm -rf "$S"; mkdir -p "$S"
@@ -18,7 +18,7 @@ print(' '.join(d) if d else m.get('property','${id:0:3}'))")
   if ! patch -s -p1 -d "$S" < $d/patch.diff >/dev/null 2>&1; then echo "$id: patch no longer applies"; continue; fi
   res=""
   for p in $props; do
-    out=$(VERIF_PROV_SRC="$S/src" ./check $p --tier quick --no-lean 2>/dev/null | grep -v "^KNOWN")
+    out=$(VERIF_SEED=${EVAL_SEED:-0} VERIF_PROV_SRC="$S/src" ./check $p --tier quick --no-lean 2>/dev/null | grep -v "^KNOWN")
     last=$(echo "$out" | tail -1)
     case "$last" in
       *"exit 1") if echo "$out" | grep "^VIOLATION" | grep -qv "no-failing-input-found"; then res="$res $p:DETECTED"; else res="$res $p:DETECTED(no-input)"; fi;;
